@@ -14,6 +14,16 @@
 (***************************************************************************)
 EXTENDS Sequences
 
+\* documented auxiliary outputs of derivative functions (returned together with the derivative when
+\* the user function follows the tuple convention), by method name
+AuxDoc(m) ==
+  CASE m = "grad_neg_log_dens" -> <<"neg_log_dens">>
+    [] m = "jacob_constr" -> <<"constr">>
+    [] m = "mhp_constr" -> <<"jacob_constr", "constr">>
+    [] m = "vjp_metric_func" -> <<"metric_func">>
+    [] m = "hess_neg_log_dens" -> <<"grad_neg_log_dens", "neg_log_dens">>
+    [] m = "mtp_neg_log_dens" -> <<"hess_neg_log_dens", "grad_neg_log_dens", "neg_log_dens">>
+    [] OTHER -> <<>>
 M(reads, calls, fn, memo) == [reads |-> reads, calls |-> calls, fn |-> fn, memo |-> memo]
 
 BaseTable ==
